@@ -359,6 +359,102 @@ func compareCBEDecode(c *Check, label string, lf decLeaf, doc []byte, cfg *confi
 }
 
 // validateRulesTrace checks recorded producer->rules traces against Rules.tla (RulesTrace.tla).
+// traceIsAccepted runs RulesTrace.tla on the lines and only says whether they are accepted.
+func traceIsAccepted(c *Check, lines []TraceLine, lim Lim) bool {
+	var buf bytes.Buffer
+	enc := json.NewEncoder(&buf)
+	for _, l := range lines {
+		if l.Reset {
+			buf.WriteString("{\"reset\":true}\n")
+			continue
+		}
+		enc.Encode(l)
+	}
+	params := paramsModuleExt("Rules", c.AllOpenDevs(), "LimV == "+lim.TLA())
+	cfg := "SPECIFICATION TraceSpec\nINVARIANT Inv\nPOSTCONDITION TraceAccepted\nCHECK_DEADLOCK FALSE\n"
+	res, err := RunTLC(TLCRun{Module: "RulesTrace", Cfg: cfg, Extra: map[string]string{"VerifParams.tla": params, "trace.ndjson": buf.String()},
+		Workers: 1, Timeout: 30 * time.Minute})
+	if err != nil {
+		machineryFail("RulesTrace: %v", err)
+	}
+	if res.OK {
+		return true
+	}
+	all := res.ErrText + "\n" + strings.Join(res.Tail, "\n")
+	if strings.Contains(res.Violated, "TraceAccepted") || strings.Contains(all, "Postcondition TraceAccepted") {
+		return false
+	}
+	machineryFail("RulesTrace: TLC failed: %s\n%s", res.ErrText, strings.Join(res.Tail, "\n"))
+	return false
+}
+
+// bindingSelfTest: a recorded trace with one field falsified must be refused by the trace
+// specification - otherwise the specification does not constrain the recorded executions.
+func bindingSelfTest(c *Check, lines []TraceLine, lim Lim) {
+	// a short window of the trace is enough (and fast)
+	var win []TraceLine
+	for _, l := range lines {
+		win = append(win, l)
+		if len(win) > 3000 {
+			break
+		}
+	}
+	clone := func() []TraceLine {
+		out := make([]TraceLine, len(win))
+		for i, l := range win {
+			out[i] = l
+			if l.Ev != nil {
+				e := *l.Ev
+				out[i].Ev = &e
+			}
+			out[i].Fwd = append([]AEv{}, l.Fwd...)
+		}
+		return out
+	}
+	tampered := 0
+	// 1. a verdict flipped
+	t1 := clone()
+	for i := len(t1) / 2; i < len(t1); i++ {
+		if t1[i].Ev != nil && t1[i].Res == "ok" && t1[i].Ev.M == "OnList" {
+			t1[i].Res = "rejected"
+			t1[i].Fwd = []AEv{}
+			tampered++
+			break
+		}
+	}
+	// 2. a forwarded event dropped
+	t2 := clone()
+	for i := len(t2) / 3; i < len(t2); i++ {
+		if t2[i].Ev != nil && t2[i].Res == "ok" && len(t2[i].Fwd) == 1 {
+			t2[i].Fwd = []AEv{}
+			tampered++
+			break
+		}
+	}
+	// 3. an event replaced by another one
+	t3 := clone()
+	for i := len(t3) / 4; i < len(t3); i++ {
+		if t3[i].Ev != nil && t3[i].Res == "ok" && t3[i].Ev.M == "OnEndContainer" {
+			t3[i].Ev.M = "OnEndDocument"
+			tampered++
+			break
+		}
+	}
+	if tampered < 3 {
+		machineryFail("binding self-test: the recorded trace offers nothing to falsify (%d of 3)", tampered)
+	}
+	if !traceIsAccepted(c, win, lim) {
+		machineryFail("binding self-test: the untouched trace window is refused")
+	}
+	for i, t := range [][]TraceLine{t1, t2, t3} {
+		if traceIsAccepted(c, t, lim) {
+			machineryFail("binding self-test %d: a falsified trace is accepted by RulesTrace.tla - the trace specification does not bind", i+1)
+		}
+	}
+	fmt.Printf("  %s binding self-test: three falsified traces (verdict flipped, forwarded event dropped, event replaced) are refused by RulesTrace.tla\n", c.Prop)
+	c.Extra["binding_self_test"] = "3 falsified traces refused"
+}
+
 func validateRulesTrace(c *Check, label string, lines []TraceLine, lim Lim) {
 	var buf bytes.Buffer
 	enc := json.NewEncoder(&buf)
@@ -384,7 +480,8 @@ func validateRulesTrace(c *Check, label string, lines []TraceLine, lim Lim) {
 		fmt.Printf("  %s %s: %d recorded traces (%d lines) accepted by Rules.tla, %.1fs\n", c.Prop, label, nTraces, len(lines), res.Wall.Seconds())
 		return
 	}
-	if res.Violated == "" || !strings.Contains(res.Violated, "TraceAccepted") && res.Depth == 0 {
+	refused := strings.Contains(res.Violated, "TraceAccepted") || strings.Contains(res.ErrText+"\n"+strings.Join(res.Tail, "\n"), "Postcondition TraceAccepted")
+	if !refused || res.Depth == 0 {
 		machineryFail("RulesTrace (%s): TLC failed: %s\n%s", label, res.ErrText, strings.Join(res.Tail, "\n"))
 	}
 	// the trace was not accepted: the longest matched prefix has length depth-1
